@@ -5,6 +5,7 @@ import (
 	"go/ast"
 	"go/token"
 	"go/types"
+	"io/fs"
 	"regexp/syntax"
 	"sort"
 	"strconv"
@@ -4724,5 +4725,461 @@ func ruleNoNameLengthLimit(id string) func(*Checker) {
 			}
 		}
 		c.check(bad == token.NoPos, id, p.FuncName(u.Ctor), "no refusal by length", p.Pos(u.Ctor.Pos()), fmt.Sprintf("%d comparison(s) of a string's length with a constant; none decides an error return", n), "the constructor refuses an entry because of the length of its name at "+p.Pos(bad))
+	}
+}
+
+// ---- round 22 ----
+
+// ruleNilErrorMeansResult — a function that hands back a pointer and an error
+// hands back a pointer when the error is nil.
+func ruleNilErrorMeansResult(id string) func(*Checker) {
+	return func(c *Checker) {
+		c.rule(id, "The other half of C19.okuse, which lets a caller dereference a pointer result past the edge on which the call's error is nil: in every unexported module function with results (…, *T, …, error) whose pointer result some caller in the module dereferences on the strength of the error test alone, no return pairs a nil error with a pointer that can be nil (the nil constant, or a phi one of whose edges is). A loop that gives up when its budget is spent and falls out to `return resolved, nil` with resolved still nil turns the refusal it replaced into a nil dereference in the caller.", 1)
+		p := c.P
+		var mayNil func(v ssa.Value, seen map[ssa.Value]bool) bool
+		mayNil = func(v ssa.Value, seen map[ssa.Value]bool) bool {
+			if seen[v] {
+				return false
+			}
+			seen[v] = true
+			switch x := v.(type) {
+			case *ssa.Const:
+				return x.IsNil()
+			case *ssa.Phi:
+				for _, e := range x.Edges {
+					if mayNil(e, seen) {
+						return true
+					}
+				}
+			}
+			return false
+		}
+		n := 0
+		for _, fn := range sortedFuncs(func() map[*ssa.Function]bool {
+			m := map[*ssa.Function]bool{}
+			for _, f := range p.Funcs {
+				if p.InModule(f) && f.Blocks != nil {
+					m[f] = true
+				}
+			}
+			return m
+		}()) {
+			res := fn.Signature.Results()
+			if res.Len() < 2 || !isErrorType(res.At(res.Len()-1).Type()) {
+				continue
+			}
+			for ri := 0; ri < res.Len()-1; ri++ {
+				if _, ok := res.At(ri).Type().Underlying().(*types.Pointer); !ok {
+					continue
+				}
+				// is the result dereferenced by a caller that tested only the error?
+				relied := false
+				for _, site := range p.callersOf(fn) {
+					cl, ok := site.(*ssa.Call)
+					if !ok {
+						continue
+					}
+					val := extractOf(cl, ri)
+					if val == nil || val.Referrers() == nil {
+						continue
+					}
+					caller := cl.Parent()
+					nilTested := false
+					for _, b := range caller.Blocks {
+						if ifi, ok := b.Instrs[len(b.Instrs)-1].(*ssa.If); ok {
+							cond, _ := stripNot(ifi.Cond)
+							if bo, ok := cond.(*ssa.BinOp); ok && (bo.Op == token.EQL || bo.Op == token.NEQ) && ((bo.X == val && isNilConst(bo.Y)) || (bo.Y == val && isNilConst(bo.X))) {
+								nilTested = true
+							}
+						}
+					}
+					if nilTested {
+						continue
+					}
+					for _, r := range *val.Referrers() {
+						switch x := r.(type) {
+						case *ssa.FieldAddr:
+							if x.X == val {
+								relied = true
+							}
+						case *ssa.UnOp:
+							if x.Op == token.MUL && x.X == val {
+								relied = true
+							}
+						case ssa.CallInstruction:
+							if x.Common().IsInvoke() && x.Common().Value == val {
+								relied = true
+							}
+						}
+					}
+				}
+				if !relied {
+					continue
+				}
+				n++
+				bad := token.NoPos
+				for _, r := range returnsOf(fn) {
+					if len(r.Results) != res.Len() {
+						continue
+					}
+					if isNilConst(r.Results[res.Len()-1]) && mayNil(r.Results[ri], map[ssa.Value]bool{}) {
+						bad = r.Pos()
+					}
+				}
+				c.check(bad == token.NoPos, id, p.FuncName(fn), fmt.Sprintf("result %d with a nil error", ri), p.Pos(fn.Pos()), "no return pairs a nil error with a pointer that can be nil", "the return at "+p.Pos(bad)+" can hand back a nil pointer together with a nil error, and a caller dereferences the pointer after testing the error only")
+			}
+		}
+		if n == 0 {
+			c.pass(id, "-", "pointer results relied on", "-", "no unexported function's pointer result is dereferenced on the strength of the error test alone")
+		}
+	}
+}
+
+// ruleClassifierKeepsKnownKinds — what is not a directory, a regular file or a
+// link is left out.
+func ruleClassifierKeepsKnownKinds(id string) func(*Checker) {
+	return func(c *Checker) {
+		c.rule(id, "The file-mode classifier of the slug package (the function from a file mode to (keep, body)) says keep only where its parameter passed a positive test of kind — IsDir(), IsRegular(), the symlink test in any spelling, Type()/ModeType compared with ModeDir or 0 — and no for everything else. Written the other way round (the kinds to leave out enumerated, the rest kept) a kind the list forgot — a character device is ModeDevice|ModeCharDevice, not ModeDevice — is kept, and Pack fails on the whole tree instead of skipping the entry.", 1)
+		p := c.P
+		n := 0
+		for _, g := range p.Funcs {
+			if g.Package() == nil || g.Package().Pkg.Path() != p.PkgPath("slug") || len(g.Params) != 1 || g.Blocks == nil {
+				continue
+			}
+			res := g.Signature.Results()
+			if res.Len() != 2 || !isBoolType(res.At(0).Type()) || !isBoolType(res.At(1).Type()) {
+				continue
+			}
+			m := g.Params[0]
+			if nt, ok := types.Unalias(m.Type()).(*types.Named); !ok || nt.Obj().Name() != "FileMode" {
+				continue
+			}
+			n++
+			kindTest := func(v ssa.Value) (posOnTrue bool, ok bool) {
+				if cl, isCall := v.(*ssa.Call); isCall && !cl.Call.IsInvoke() && len(cl.Call.Args) == 1 && canon(cl.Call.Args[0]) == ssa.Value(m) {
+					if o := calleeObj(cl); o != nil && objPkgPath(o) == "io/fs" && (o.Name() == "IsDir" || o.Name() == "IsRegular") {
+						return true, true
+					}
+				}
+				if f, t, isT := symlinkTest(v); isT && canon(f) == ssa.Value(m) {
+					return t, true
+				}
+				if bo, isBo := v.(*ssa.BinOp); isBo && (bo.Op == token.EQL || bo.Op == token.NEQ) {
+					k, isC := constInt(bo.Y)
+					if !isC || (k != 0 && k != int64(fs.ModeDir)) {
+						return false, false
+					}
+					x := canon(bo.X)
+					if cl, isCall := x.(*ssa.Call); isCall && !cl.Call.IsInvoke() && len(cl.Call.Args) == 1 && canon(cl.Call.Args[0]) == ssa.Value(m) {
+						if o := calleeObj(cl); o != nil && o.Name() == "Type" && objPkgPath(o) == "io/fs" {
+							return bo.Op == token.EQL, true
+						}
+					}
+					if and, isAnd := x.(*ssa.BinOp); isAnd && and.Op == token.AND && canon(and.X) == ssa.Value(m) {
+						if mk, isM := constInt(and.Y); isM && mk == int64(fs.ModeType) {
+							return bo.Op == token.EQL, true
+						}
+						if mk, isM := constInt(and.Y); isM && mk == int64(fs.ModeDir) && k == 0 {
+							return bo.Op == token.NEQ, true
+						}
+					}
+				}
+				return false, false
+			}
+			tE, fE := condEdges(g, func(v ssa.Value) bool { _, ok := kindTest(v); return ok })
+			var pos []Edge
+			polOf := func(e Edge) bool {
+				ifi := e.From.Instrs[len(e.From.Instrs)-1].(*ssa.If)
+				cnd, _ := stripNot(ifi.Cond)
+				t, _ := kindTest(cnd)
+				return t
+			}
+			for _, e := range tE {
+				if polOf(e) {
+					pos = append(pos, e)
+				}
+			}
+			for _, e := range fE {
+				if !polOf(e) {
+					pos = append(pos, e)
+				}
+			}
+			var keepOK func(v ssa.Value, at *ssa.BasicBlock, seen map[ssa.Value]bool) bool
+			keepOK = func(v ssa.Value, at *ssa.BasicBlock, seen map[ssa.Value]bool) bool {
+				if seen[v] {
+					return true
+				}
+				seen[v] = true
+				if b, isC := constBool(v); isC {
+					return !b || guarded(at, pos)
+				}
+				if t, ok := kindTest(v); ok {
+					return t
+				}
+				switch x := v.(type) {
+				case *ssa.Phi:
+					for i, e := range x.Edges {
+						pr := x.Block().Preds[i]
+						// `a || b`: the constant true arrives on the positive edge of a itself
+						if b, isC := constBool(e); isC && b {
+							direct := false
+							for _, pe := range pos {
+								if pe.From == pr && pe.To() == x.Block() {
+									direct = true
+								}
+							}
+							if direct {
+								continue
+							}
+						}
+						if !keepOK(e, pr, seen) {
+							return false
+						}
+					}
+					return true
+				case *ssa.BinOp:
+					if x.Op == token.OR || x.Op == token.AND {
+						return keepOK(x.X, at, seen) && keepOK(x.Y, at, seen)
+					}
+				}
+				return false
+			}
+			bad := token.NoPos
+			for _, r := range returnsOf(g) {
+				if len(r.Results) == 2 && !keepOK(r.Results[0], r.Block(), map[ssa.Value]bool{}) {
+					bad = r.Pos()
+				}
+			}
+			c.check(bad == token.NoPos, id, p.FuncName(g), "keep only past a positive test of kind", p.Pos(g.Pos()), "every return that says keep lies past IsDir / IsRegular / the symlink test (or is such a test's value)", "the return at "+p.Pos(bad)+" says keep for a mode that passed no positive test of kind: a special file the enumeration of kinds to leave out forgot is kept")
+		}
+		if n == 0 {
+			c.anchorMissing(id, "the file-mode classifier (func(fs.FileMode) (bool, bool) in slug)")
+		}
+	}
+}
+
+// ruleQueueLoopsProgress — every way round a queue's loop takes an item off the queue.
+func ruleQueueLoopsProgress(id string) func(*Checker) {
+	return func(c *Checker) {
+		c.rule(id, "In the bundle package, a loop that runs while one of the builder's pending queues is not empty (`for len(b.pendingX) > 0`) takes an item off that queue on every way round: from the loop's body every path back to the test passes a store that re-slices that queue. An item that is looked at, fails, and is left where it is — the pop moved behind the error return — is found again by the next test: the build never ends, holding the builder's lock, with one more diagnostic and one more registry request each time round.", 2)
+		p := c.P
+		n := 0
+		for _, fn := range p.Funcs {
+			if !inBundlePkg(p, fn) || fn.Blocks == nil {
+				continue
+			}
+			for _, h := range fn.Blocks {
+				ifi, ok := h.Instrs[len(h.Instrs)-1].(*ssa.If)
+				if !ok {
+					continue
+				}
+				cond, neg := stripNot(ifi.Cond)
+				bo, ok := cond.(*ssa.BinOp)
+				if !ok {
+					continue
+				}
+				var lv ssa.Value
+				bodySucc := 0
+				switch {
+				case (bo.Op == token.GTR || bo.Op == token.NEQ) && isZeroInt(bo.Y):
+					lv = bo.X
+				case bo.Op == token.LSS && isZeroInt(bo.X):
+					lv = bo.Y
+				case (bo.Op == token.EQL || bo.Op == token.LEQ) && isZeroInt(bo.Y):
+					lv, bodySucc = bo.X, 1
+				default:
+					continue
+				}
+				if neg {
+					bodySucc = 1 - bodySucc
+				}
+				q := lenOf(lv)
+				if q == nil {
+					continue
+				}
+				ld, ok := canon(q).(*ssa.UnOp)
+				if !ok || ld.Op != token.MUL {
+					continue
+				}
+				fa, ok := ld.X.(*ssa.FieldAddr)
+				if !ok || !isNamedT(derefType(fa.X.Type()), "Builder") || !strings.HasPrefix(fieldOf(fa).Name(), "pending") {
+					continue
+				}
+				body := h.Succs[bodySucc]
+				if !reaches(body, h) {
+					continue // not a loop
+				}
+				// `for len(a) > 0 || len(b) > 0` around the two loops: two tests that share one body are one
+				// condition, and what keeps that loop going is decided by the loops inside it
+				shared := false
+				for _, o := range append(append([]*ssa.BasicBlock{}, h.Preds...), h.Succs[1-bodySucc]) {
+					if o == h || len(o.Instrs) == 0 {
+						continue
+					}
+					if oi, ok := o.Instrs[len(o.Instrs)-1].(*ssa.If); ok {
+						oc, _ := stripNot(oi.Cond)
+						if ob, ok := oc.(*ssa.BinOp); ok && (lenOf(ob.X) != nil || lenOf(ob.Y) != nil) {
+							for _, sx := range o.Succs {
+								if sx == body {
+									shared = true
+								}
+							}
+						}
+					}
+				}
+				if shared {
+					continue
+				}
+				qn := fieldOf(fa).Name()
+				n++
+				pops := func(b *ssa.BasicBlock) bool {
+					for _, in := range b.Instrs {
+						st, ok := in.(*ssa.Store)
+						if !ok {
+							continue
+						}
+						fa2, ok := st.Addr.(*ssa.FieldAddr)
+						if !ok || !isNamedT(derefType(fa2.X.Type()), "Builder") || fieldOf(fa2).Name() != qn {
+							continue
+						}
+						if sl, ok := st.Val.(*ssa.Slice); ok && (sl.High != nil || sl.Low != nil) {
+							return true
+						}
+					}
+					// or a call of a bundle function all of whose paths pop (one level)
+					for _, in := range b.Instrs {
+						ci, ok := in.(ssa.CallInstruction)
+						if !ok {
+							continue
+						}
+						g := ci.Common().StaticCallee()
+						if g == nil || !inBundlePkg(p, g) || g.Blocks == nil {
+							continue
+						}
+						all := true
+						seen := map[*ssa.BasicBlock]bool{}
+						var walk func(x *ssa.BasicBlock)
+						walk = func(x *ssa.BasicBlock) {
+							if seen[x] || !all {
+								return
+							}
+							seen[x] = true
+							for _, in2 := range x.Instrs {
+								if st, ok := in2.(*ssa.Store); ok {
+									if fa2, ok := st.Addr.(*ssa.FieldAddr); ok && isNamedT(derefType(fa2.X.Type()), "Builder") && fieldOf(fa2).Name() == qn {
+										if sl, ok := st.Val.(*ssa.Slice); ok && (sl.High != nil || sl.Low != nil) {
+											return
+										}
+									}
+								}
+							}
+							if _, isRet := x.Instrs[len(x.Instrs)-1].(*ssa.Return); isRet {
+								all = false
+								return
+							}
+							for _, s := range x.Succs {
+								walk(s)
+							}
+						}
+						walk(g.Blocks[0])
+						if all {
+							return true
+						}
+					}
+					return false
+				}
+				seen := map[*ssa.BasicBlock]bool{}
+				stuck := false
+				var walk func(x *ssa.BasicBlock)
+				walk = func(x *ssa.BasicBlock) {
+					if seen[x] || stuck {
+						return
+					}
+					seen[x] = true
+					if x == h {
+						stuck = true
+						return
+					}
+					if pops(x) {
+						return
+					}
+					for _, s := range x.Succs {
+						walk(s)
+					}
+				}
+				walk(body)
+				c.check(!stuck, id, p.FuncName(fn), "loop over "+qn+" takes an item off every time round", p.Pos(ifi.Cond.Pos()), "every path from the body back to the test re-slices "+qn, "a path leads from the loop's body back to its test without taking anything off "+qn+": an item that fails where it is looked at before it is removed is found again by the next test, for ever")
+			}
+		}
+		if n == 0 {
+			c.anchorMissing(id, "loops that run while a pending queue is not empty")
+		}
+	}
+}
+
+func isZeroInt(v ssa.Value) bool {
+	k, ok := constInt(v)
+	return ok && k == 0
+}
+
+// ruleValueReceiverWrites — what a method writes into its own copy of the receiver is gone when it returns.
+func ruleValueReceiverWrites(id, pkg string) func(*Checker) {
+	return func(c *Checker) {
+		c.rule(id, "No method with a value receiver assigns to a field of that receiver unless the receiver's value is used as a whole afterwards (returned, stored, passed on): the method works on a copy, and the assignment — a diagnostic appended to `q.diags`, a counter, a flag — is lost when it returns. Callbacks turned from closures over a variable into methods of a small struct keep compiling with either kind of receiver; with the value kind, what the callback was to report never reaches the function that set it up.", 0)
+		c.absence(id)
+		p := c.P
+		n := 0
+		for _, fn := range p.Funcs {
+			if !p.InModule(fn) || !strings.HasSuffix(pkgPathOf(p, fn), pkg) || fn.Blocks == nil || fn.Signature.Recv() == nil || len(fn.Params) == 0 {
+				continue
+			}
+			recv := fn.Params[0]
+			if _, isStruct := recv.Type().Underlying().(*types.Struct); !isStruct {
+				continue
+			}
+			// the spilled copy: an Alloc that is stored the receiver parameter
+			var cell *ssa.Alloc
+			eachInstr(fn, func(in ssa.Instruction) {
+				if st, ok := in.(*ssa.Store); ok && st.Val == ssa.Value(recv) {
+					if al, ok := st.Addr.(*ssa.Alloc); ok {
+						cell = al
+					}
+				}
+			})
+			if cell == nil || cell.Referrers() == nil {
+				continue
+			}
+			usedWhole := false
+			var writes []*ssa.Store
+			for _, r := range *cell.Referrers() {
+				switch x := r.(type) {
+				case *ssa.Store:
+					if x.Val == ssa.Value(cell) {
+						usedWhole = true // the address escapes
+					}
+				case *ssa.UnOp:
+					if x.Op == token.MUL {
+						usedWhole = true // the whole value is read (returned, copied, passed on)
+					}
+				case *ssa.FieldAddr:
+					if x.Referrers() != nil {
+						for _, r2 := range *x.Referrers() {
+							if st, ok := r2.(*ssa.Store); ok && st.Addr == ssa.Value(x) {
+								writes = append(writes, st)
+							}
+						}
+					}
+				case ssa.CallInstruction, *ssa.MakeClosure, *ssa.MakeInterface:
+					usedWhole = true
+				}
+			}
+			for _, st := range writes {
+				n++
+				if !usedWhole {
+					c.fail(id, p.FuncName(fn), "field of the value receiver assigned", p.Pos(st.Pos()), "the method has a value receiver and assigns to a field of it; nothing uses the receiver as a whole afterwards, so the assignment is lost when the method returns")
+				}
+			}
+		}
+		c.pass(id, "-", "value-receiver methods inspected", "-", fmt.Sprintf("%d assignment(s) to fields of value receivers", n))
 	}
 }
